@@ -167,7 +167,7 @@ def twin_op(ctx, mon, rng, ex, hg, exercised):
         op = {'m': rng.choice(['len', 'encode', 'is_formatting_parsable', 'is_formatting_valid', 'is_optimizable']), 'r': ri}
     else:
         op = hg.mk_op(rng.choice(TWIN_KINDS))
-    if op['m'] in ('new', 'copy', 'assign_str', 'set_ansi_str'):
+    if op['m'] in ('new', 'copy', 'pycopy', 'assign_str', 'set_ansi_str'):
         return
     if op['m'] == 'join':
         src = None
@@ -226,6 +226,54 @@ def twin_op(ctx, mon, rng, ex, hg, exercised):
             if o2.text != o.text or O.first_diff_exact(o.texts, o2.texts) is not None:
                 if op['m'] != 'iadd':
                     ctx.violation('ansistr-receiver-changed', det, mech='ansistr-mutated:' + mname)
+
+
+def copy_protocol_probe(ctx, mon, rng, ex):
+    """copy.copy / copy.deepcopy / pickle of an AnsiStr: still an AnsiStr with the text, settings and renderings of the
+    original, and - "always" - a str payload equal to its own rendering"""
+    import copy
+    import pickle
+    L = ctx.L
+    vals = ansi_values(L, ex)
+    if not vals:
+        return
+    v = rng.choice(vals)
+    how = rng.choice(['copy', 'deepcopy', 'pickle0', 'pickle2', 'pickle5'])
+    with mon.quiet():
+        try:
+            a = L.AnsiStr(v)
+            o = O.observe(a)
+        except O.ObsError:
+            return
+        det = {'how': how, 'value': o.describe()}
+        ctx.ev('copy-protocol')
+        ctx.sig('copy-protocol:' + how)
+        if o.styled():
+            ctx.nontriv(('copyproto', how, o.key()))
+        try:
+            if how == 'copy':
+                b = copy.copy(a)
+            elif how == 'deepcopy':
+                b = copy.deepcopy({'k': [a]})['k'][0]
+            else:
+                b = pickle.loads(pickle.dumps(a, int(how[6:])))
+            ob = O.observe(b)
+            payload = str.__str__(b)
+            rend = b.to_str()
+        except Exception as e:
+            ctx.violation('copy-protocol-raised', dict(det, error=repr(e)), mech='copy-protocol:' + how.rstrip('025'))
+            return
+        bad = None
+        if type(b) is not L.AnsiStr:
+            bad = 'type %r' % (type(b),)
+        elif ob.text != o.text or O.first_diff_exact(o.texts, ob.texts) is not None:
+            bad = 'text/settings differ: %r' % (ob.describe(),)
+        elif payload != rend:
+            bad = 'payload %r != rendering %r' % (payload, rend)
+        elif payload != str.__str__(a) or format(b, '') != format(a, '') or ('%s' % b) != ('%s' % a):
+            bad = 'payload %r != payload of the original %r' % (payload, str.__str__(a))
+        if bad:
+            ctx.violation('copy-protocol-payload', dict(det, what=bad), mech='copy-protocol:' + how.rstrip('025'))
 
 
 def ctor_twin(ctx, mon, rng, ex):
@@ -291,6 +339,8 @@ def drive(ctx, mon, tier, only_case=None):
             ctor_twin(ctx, mon, rng, ex)
         for _ in range(14):
             twin_op(ctx, mon, rng, ex, hg, exercised)
+        for _ in range(2):
+            copy_protocol_probe(ctx, mon, rng, ex)
 
     run_cases(ctx, mon, CASES[tier], body, only_case=only_case)
     sh = shared_methods(L)
